@@ -305,7 +305,7 @@ fn intermediates_are_objects(d: &MObj, path: &str) -> bool {
 pub fn run(tier: Tier) -> i32 {
     let mut rep = Report::new("C10", tier);
     let th = tier.thorough();
-    let docs = if th { documents(4, 7) } else { documents(3, 6) };
+    let docs = if th { documents(4, 7) } else { documents(4, 6) };
     let ps = paths(if th { 4 } else { 3 });
     rep.stats.count("documents", docs.len() as u64);
     rep.stats.count("paths", ps.len() as u64);
@@ -401,10 +401,32 @@ pub fn run(tier: Tier) -> i32 {
                 Some(r) => r,
                 None => return st,
             };
+            let optimised: Vec<(u8, tau_engine::Rule)> = [0b0010u8, 0b1111, 0b1000]
+                .iter()
+                .filter_map(|sw| eng::optimise_with(&nr, *sw, &[]).ok().map(|x| (*sw, x.0)))
+                .collect();
             for d in &docs {
                 let n = eng::val3(&nr, d).unwrap_or(2);
                 let dd = eng::val3(&dr, d).unwrap_or(2);
                 let exp = refint::eval_rule(&rr, d);
+                for (sw, o) in &optimised {
+                    let v = eng::val3(o, d).unwrap_or(2);
+                    st.transitions += 1;
+                    st.evaluations += 1;
+                    let vb = match v {
+                        1 => refint::T,
+                        0 => refint::F,
+                        -1 => refint::M,
+                        _ => 0,
+                    };
+                    if vb & exp == 0 {
+                        st.push_violation(Violation {
+                            signature: "nested-mapping:optimised-form-differs-from-reference".into(),
+                            witness: format!("nested form of {}: {} after optimise({}) on {} = {} ; reference {}", p, leaf, eng::sw_name(*sw), d.show(), eng::v3name(v), refint::set_name(exp)),
+                            replay: json!({"kind":"optimise","rule_yaml":ny,"sw_bits":sw,"hash_order_choices":[],"document":crate::report::mobj_to_json(d)}),
+                        });
+                    }
+                }
                 st.states += 1;
                 st.transitions += 2;
                 st.traces += 1;
